@@ -123,6 +123,13 @@ PAYOUT_MODELS = [
 ]
 
 
+# caps and utilization with values (Caps.tla): limits moved onto / under the totals, boundaries of deposit / borrow / withdraw by bisection
+CAPS_MODELS = [
+    {"name": "caps", "module": "MC_Caps.tla", "cfg": {"quick": "MC_CapsQuick.cfg", "thorough": "MC_CapsThorough.cfg"},
+     "setup": "setups/capsmodel.json", "init_from_setup": True, "timeout": {"quick": 900, "thorough": 10000}},
+]
+
+
 RISKCFG_MODELS = [
     {"name": "riskcfg", "module": "MC_RiskCfg.tla", "cfg": {"quick": "MC_RiskCfgQuick.cfg", "thorough": "MC_RiskCfgThorough.cfg"},
      "setup": "setups/riskcfg.json", "init_from_setup": True, "timeout": {"quick": 900, "thorough": 10000}},
@@ -244,7 +251,7 @@ PROPS = {
     "C03": dict(ledger_prop(extra_ops=["kamino_deposit", "kamino_withdraw", "drift_deposit", "drift_withdraw", "solend_deposit", "solend_withdraw"]), drivers=LEDGER_DRIVERS + KAMINO_DRIVERS + EDGE_DRIVERS, models=LEDGER_MODELS + VENUE_MODELS),
     "C06": dict(ledger_prop(), drivers=LEDGER_DRIVERS + EDGE_DRIVERS + [{"name": "caps", "args": {"quick": [200], "thorough": [4000]}}]),
     "C16": dict(ledger_prop(extra_ops=["close_account", "transfer_account"]), models=LEDGER_MODELS + PDA_MODELS + LIFE_MODELS, drivers=LEDGER_DRIVERS + [{"name": "struct", "args": {"quick": [60], "thorough": [2000]}}] + LIQ_DRIVERS + STAKED_DRIVERS + ADMIN_DRIVERS + KAMINO_DRIVERS + EDGE_DRIVERS),
-    "C17": dict(ledger_prop(), drivers=LEDGER_DRIVERS + EDGE_DRIVERS + [{"name": "caps", "args": {"quick": [300], "thorough": [8000]}}]),
+    "C17": dict(ledger_prop(), models=LEDGER_MODELS + CAPS_MODELS, drivers=LEDGER_DRIVERS + EDGE_DRIVERS + [{"name": "caps", "args": {"quick": [300], "thorough": [8000]}}]),
     "C15": {
         "models": [
             {"name": "panic", "module": "Panic.tla", "cfg": {"quick": "MC_PanicQuick.cfg", "thorough": "MC_PanicThorough.cfg"},
